@@ -1764,7 +1764,7 @@ fn main() {
     let start = Instant::now();
     let quick = cli.tier.is_quick();
     let shards: usize = if quick { 32 } else { 128 };
-    let per_shard = cli.scaled(if quick { 14 } else { 160 });
+    let per_shard = cli.scaled(if quick { 10 } else { 60 });
     let steps: u32 = if quick { 34 } else { 44 };
     let seed = cli.seed;
     let mut report = run_sharded("C15", cli.threads, shards, |shard, r| {
